@@ -26,7 +26,9 @@ Inductive val :=
 | VInt (z : Z)
 | VStr (z : Z)
 | VInst (attrs : list (Z * val))      (* an instance: its __dict__ *)
-| VDict (items : list (Z * val)).     (* a dict with string keys *)
+| VDict (items : list (Z * val))      (* a dict with string keys *)
+| VTuple (elems : list (Z * val))     (* a tuple; elements tagged with their position *)
+| VFrozen (elems : list (Z * val)).   (* a frozenset; elements in canonical order, tags unused *)
 
 Definition hop_eqb (a b : hop) : bool :=
   match a, b with
@@ -81,11 +83,28 @@ Fixpoint val_eqb (a b : val) {struct a} : bool :=
   | VStr x, VStr y => x =? y
   | VInst d, VInst e => alist_eqb (fun x y => val_eqb x y) d e
   | VDict d, VDict e => alist_eqb (fun x y => val_eqb x y) d e
+  | VTuple d, VTuple e => alist_eqb (fun x y => val_eqb x y) d e
+  | VFrozen d, VFrozen e => alist_eqb (fun x y => val_eqb x y) d e
   | _, _ => false
   end.
 
-Definition is_mutable (v : val) : bool :=
-  match v with VInst _ | VDict _ => true | _ => false end.
+Section AlistExists.
+  Variable f : val -> bool.
+  Fixpoint alist_exists (d : list (Z * val)) : bool :=
+    match d with
+    | [] => false
+    | (_, x) :: t => f x || alist_exists t
+    end.
+End AlistExists.
+
+(* some mutable object (instance, dict) is reachable from v; tuples and
+   frozensets are immutable themselves but may hold mutable objects *)
+Fixpoint is_mutable (v : val) : bool :=
+  match v with
+  | VInst _ | VDict _ => true
+  | VTuple d | VFrozen d => alist_exists (fun x => is_mutable x) d
+  | _ => false
+  end.
 Definition is_int (v : val) : bool :=
   match v with VInt _ => true | _ => false end.
 
@@ -93,7 +112,7 @@ Definition is_int (v : val) : bool :=
 Inductive out :=
 | ONone                 (* assignment / deletion *)
 | OVal (v : val)        (* an existing object or an immutable value *)
-| OFresh (v : val)      (* a newly made mutable object equal to v, sharing nothing *)
+| OFresh (v : val)      (* a value equal to v none of whose reachable mutable objects existed before *)
 | ODescr.               (* the descriptor itself (class-level access) *)
 
 Definition out_eqb (a b : out) : bool :=
